@@ -250,11 +250,13 @@ pub fn gen_env(p: &mut Prng, n_decls: usize, o: &GenOpts) -> Env {
             let nv = 1 + p.below(4) as usize;
             let variants = (0..nv)
                 .map(|v| {
-                    let nf = match p.below(6) {
+                    let nf = match p.below(8) {
                         0 | 1 => 0,
                         2 | 3 => 1,
                         4 => 2,
-                        _ => 3,
+                        5 => 3,
+                        6 => 4,
+                        _ => 5,
                     };
                     let ts = (0..nf).map(|_| gen_type(p, &env, 2, generic, o)).collect();
                     (format!("V{i}x{v}"), ts)
